@@ -50,6 +50,7 @@ fn alias_of(ap: &AP) -> Option<u16> {
 
 impl Observer for AliasModel {
     fn on_step(&mut self, w: &World, pre: &Tracker, _pa: &App, st: &Step) -> R {
+        check_wire("C13", st, w.t.cfg.idw)?;
         if st.panic.is_some() {
             return Ok(());
         }
